@@ -29,6 +29,13 @@ func (m *actionMethod) Name() string {
 	return m.Method.Name()
 }
 
+// Variadic reports whether the method's last parameter is written "...T". Its
+// type is []T as far as matching is concerned; the generated call has to
+// spread the slice.
+func (m *actionMethod) Variadic() bool {
+	return m.Method.Type().(*gotypes.Signature).Variadic()
+}
+
 type generated string
 
 const (
